@@ -41,6 +41,7 @@ HOOK_MODULES = {
     'core/utils_screen.rs': ('rustzx-core', 'utils::screen::verif_hooks'),
     'aym/precise.rs': ('aym', 'backends::precise::verif_hooks'),
     'z80/cpu.rs': ('rustzx-z80', 'cpu::verif_hooks'),
+    'z80/registers.rs': ('rustzx-z80', 'registers::verif_hooks'),
     'vtx/lib.rs': ('vtx', 'verif_hooks'),
     'vtx/player.rs': ('vtx', 'player::verif_hooks'),
 }
